@@ -102,7 +102,10 @@ class Check(PropertyCheck):
         return ImplGraph()
 
     def generate(self, rng, n, tier):
-        for _ in range(n):
+        for _i in range(n):
+            if _i % 5 == 4:
+                yield Scenario(["new", f"mark customfilter {rng.randint(0, 10**6)}"], {"family": "custom_filter", "jobs": 2})
+                continue
             family, jobs = gen.gen_instance(rng, max_jobs=4, max_ops=4 if tier == "quick" else 5)
             # one scenario in five: instance transformations (which return new instances) were applied to the instance before its
             # graphs are built
@@ -134,6 +137,9 @@ class Check(PropertyCheck):
 
     def oracle(self, impl, scenario, index, line, out, ctx):
         res = []
+        if line.startswith("mark customfilter"):
+            import oracles
+            return oracles.custom_filter_episode(int(line.split()[2]))["C16"]
         if line.startswith("graph "):
             b = line.split()[1]
             nodes, edges = parse_graph(out)
